@@ -38,7 +38,7 @@ class Harness:
                  flags=(), backend='sat', timeout=300, inputs=(), bounded=None,
                  expect_loop_obligations=0, defines=(), entry='harness', note='',
                  stubs=(), assumptions=(), replay=None, nondet_static=False, group=None,
-                 object_bits=None, no_canary=False):
+                 object_bits=None, no_canary=False, plain=False):
         self.name = name
         self.prop = prop
         self.parts = parts          # list of str | extract.Fn
@@ -60,6 +60,7 @@ class Harness:
         self.group = group
         self.object_bits = object_bits
         self.no_canary = no_canary
+        self.plain = plain      # no DFCC instrumentation: assertions over the real bodies, loops fully unwound
         self.result = None
 
 
@@ -161,7 +162,10 @@ def run_harness(h, outdir, tier):
         gi += ['--replace-call-with-contract', r]
     if h.loop_contracts:
         gi += ['--apply-loop-contracts']
-    gi += [gb1, gb2]
+    if h.plain:
+        gi = ['cp', gb1, gb2]
+    else:
+        gi += [gb1, gb2]
     rc, out, err, _ = sh(gi, 300)
     res['instrument_log'] = (out + err)[-4000:]
     if rc != 0:
@@ -287,6 +291,8 @@ def run_harness(h, outdir, tier):
                                 if lhs.startswith('vp_in_'):
                                     v = st_.get('value', {})
                                     vals[lhs] = v.get('data') if 'data' in v else _flatten(v)
+                                    if 'binary' in v:
+                                        vals[lhs + '#bin'] = v['binary']
                         lead['inputs'] = vals
         except Exception:
             pass
